@@ -55,6 +55,10 @@ fn env_value(c: &str) -> &'static str {
         "looks_num" => "007",
         "looks_null" => "null",
         "percent_at" => "%x @y &z *w",
+        // several lines, one of them consisting of three dashes (the front-matter delimiter, indented inside a block scalar)
+        "multiline_dashes" => "title\n---\nbody",
+        // TAB, NEL, a C0 control character, LINE SEPARATOR
+        "controls" => "a\tb\u{85}c\u{1}d\u{2028}e",
         "combining" => "cafe\u{301} \u{939}\u{93f}\u{928}\u{94d}\u{926}\u{940}",
         other => tool_error(&format!("unknown env class {other}")),
     }
